@@ -133,8 +133,15 @@ namespace
         if (!g_gate->free_run && g_gate->next < g_gate->schedule.size()) { g_gate->next++; }
         g_gate->cv.notify_all();
     }
-    void sync_hook(verif::sync, runtime&)
+    // moments (steady clock, ms): the controller finished writing its request flag / the executor's call returned
+    std::atomic<long long> g_flag_ms{ -1 }, g_exec_end_ms{ -1 };
+    long long now_steady_ms()
     {
+        return std::chrono::duration_cast<std::chrono::milliseconds>(std::chrono::steady_clock::now().time_since_epoch()).count();
+    }
+    void sync_hook(verif::sync where, runtime&)
+    {
+        if (where == verif::sync::ctl_done && g_flag_ms.load() < 0) { g_flag_ms = now_steady_ms(); }
         if (!g_gate) { return; }
         std::string who;
         {
@@ -146,9 +153,15 @@ namespace
 }
 static void cmd_ctlmt(const J& c)
 {
-    auto v = make_vm();
+    // "limit_ms": a time limit as safety net for scripts that only end when they are stopped; whether the limit
+    // (and not the stop) ended the run is reported as "deadline" in the Final event
+    sqf::runtime::runtime::runtime_conf mtconf;
+    if (c.num("limit_ms", 0) > 0) { mtconf.max_runtime = std::chrono::milliseconds(c.num("limit_ms", 0)); }
+    auto v = make_vm(mtconf);
     auto& rt = *v.rt;
     v.logger->keep = false;
+    std::atomic<bool> deadline_hit{ false };
+    v.logger->sink = [&deadline_hit](const diag& d) { if (d.text.find("runtime of") != std::string::npos) { deadline_hit = true; } };
     std::string text = c.str("text");
     if (!text.empty())
     {
@@ -161,6 +174,8 @@ static void cmd_ctlmt(const J& c)
     g_gate = &g;
     verif::get().at_sync = &sync_hook;
     g_instr = 0;
+    g_flag_ms = -1;
+    g_exec_end_ms = -1;
     verif::get().observe = &count_hook;
     auto body = [&](std::string who, std::vector<std::string> calls) {
         {
@@ -171,6 +186,7 @@ static void cmd_ctlmt(const J& c)
         {
             wait_turn(who);          // beginning a call is a scheduling point too
             auto res = rt.execute(action_of(a));
+            if (who == "E") { g_exec_end_ms = now_steady_ms(); }
             J e = ev("Ret");
             e.set("t", who).set("a", a).set("res", result_name(res)).set("instr", (long long)g_instr.load());
             emit(e);
@@ -193,6 +209,9 @@ static void cmd_ctlmt(const J& c)
     g_gate = nullptr;
     J f = ev("Final");
     f.set("instr", (long long)g_instr.load());
+    f.set("deadline", deadline_hit.load());
+    // how long the executor's (last) call went on after the request flag had been written (-1: no flag / it ended before)
+    f.set("lag_ms", (g_flag_ms.load() >= 0 && g_exec_end_ms.load() >= g_flag_ms.load()) ? g_exec_end_ms.load() - g_flag_ms.load() : -1LL);
     f.set("state", state_name(rt.runtime_state())).set("nctx", (long long)nctx(rt)).set("exitreq", rt.is_exit_requested());
     emit(f);
 }
